@@ -81,7 +81,7 @@ class Tagged:
         raise util.HarnessError(f"tracker used rng.{name}: only normal(size=n) is scripted")
 
 
-def run_one(D, Dz, dt, dxy, nsteps, npart, adv, inactive=False, wadv=0.0):
+def run_one(D, Dz, dt, dxy, nsteps, npart, adv, inactive=False, wadv=0.0, big=False):
     from ladim.state import State
     from ladim.timekeeper import TimeKeeper
     from ladim.tracker import Tracker
@@ -99,6 +99,18 @@ def run_one(D, Dz, dt, dxy, nsteps, npart, adv, inactive=False, wadv=0.0):
     # cell-wise metric: a steady current carries the particles into cells with another spacing (0.45 cells of the base spacing per step)
     ua, va = (0.45 * dx / dt, 0.3 * dx / dt) if cellwise else (0.0, 0.0)
     mods["forcing"] = fo = plugin("aforce").Forcing(mods, field="const" if cellwise else "still", params=dict(a=ua, b=va, L=1.0), w=wadv, record=False)
+    # adversarial history: another tracker with the same coefficients and another time step has diffused before (same process)
+    try:
+        from ladim.timekeeper import TimeKeeper as _TK
+
+        dm = dict(mods, time=_TK(start=world.iso(S0), stop=world.iso(S0 + 1000 * (7 * dt + 1)), dt=7 * dt + 1), state=State())
+        dm["state"].append(X=20.0, Y=15.0, Z=600.0)
+        dtr = Tracker(advection=adv, diffusion=D, vertdiff=Dz, modules=dm)
+        dtr.rng = Tagged(1e-9)
+        dm["time"].update()
+        dtr.update()
+    except Exception:
+        pass
     tr = Tracker(advection=adv, diffusion=D, vertdiff=Dz, vertical_advection=bool(wadv), modules=mods)
     mods["tracker"] = tr
     if not isinstance(tr.rng, np.random.Generator):
@@ -106,6 +118,8 @@ def run_one(D, Dz, dt, dxy, nsteps, npart, adv, inactive=False, wadv=0.0):
     sig_h = (2 * D * dt) ** 0.5
     sig_z = (2 * Dz * dt) ** 0.5
     scale = min(1.0, 0.02 / max(sig_h / min(dx, dy), 1e-30), 10.0 / max(sig_z, 1e-30))  # <= 0.02 cells and <= 10 m per step
+    if big and sig_h > 0:  # one kick of about 1.4 cells: a random step longer than a grid cell is legal
+        scale = 1.4 / (sig_h / min(dx, dy))
     rng = Tagged(scale)
     tr.rng = rng
     X0 = np.array([20.0, 18.5, 21.25][:npart])
@@ -223,12 +237,15 @@ def run_case(case):
         return run_roms(case)
     combos = [(n_, p_, a_, False, 0.0) for n_, p_, a_ in itertools.product(case["steps"], case["particles"], ["", "EF"])]
     combos += [(2, 3, "", True, 0.0), (2, 3, "EF", True, 0.0)]  # with an inactive particle in front
+    if case["D"] > 0 and case["Dz"] == 0:
+        combos += [(1, 3, "", False, "big"), (1, 1, "EF", False, "big")]  # one random step longer than a grid cell
     if case["Dz"] > 0:
         combos += [(2, 3, "", False, 0.5 / case["dt"])]  # vertical advection on top of the vertical random walk
     for nsteps, npart, adv, inact, wadv in combos:
         if "only" in case and case["only"] != [nsteps, npart, adv, inact, wadv]:
             continue
-        res = run_one(case["D"], case["Dz"], case["dt"], case["dxy"], nsteps, npart, adv, inact, wadv)
+        big = wadv == "big"
+        res = run_one(case["D"], case["Dz"], case["dt"], case["dxy"], nsteps, npart, adv, inact, 0.0 if big else wadv, big)
         n += nsteps * npart
         if case["D"] > 0 or case["Dz"] > 0:
             nt += 1
